@@ -45,6 +45,12 @@ fn oracle() -> Oracle {
                     return None;
                 };
                 let delta = after - before;
+                // nothing is sent behind the caller's back when the iterator is dropped
+                if let Some(last) = o.calls_after.last() {
+                    if o.log.len() != *last {
+                        return fail(format!("calls after drop: {} driver calls were made after the last next() had returned (when the iterator was dropped)", o.log.len() - last));
+                    }
+                }
                 let Some(item) = o.items.get(k) else { return None };
                 match item {
                     ObsItem::Row(row) => {
@@ -57,13 +63,20 @@ fn oracle() -> Oracle {
                         }
                         // which rows are checked is the reference's: the two mid-clock rows of a C
                         // expansion are unchecked, every other row is checked
+                        let has_outputs = case.sigs.iter().any(|s| s.is_out()) || !case.prog.declares().is_empty();
                         if let Some(RefItem::Row(rr)) = r.items.get(k) {
-                            if rr.checked == row.outputs.is_empty() {
+                            if has_outputs && rr.checked == row.outputs.is_empty() {
                                 return fail(format!("checked rows: row {k} is {} but has {} outputs", if rr.checked { "a checked row (not a mid-clock row)" } else { "a mid-clock row" }, row.outputs.len()));
                             }
                         }
                         if case.ov {
-                            if c.rw != !row.outputs.is_empty() {
+                            // checked rows go out with the output-reading call also when there is nothing to read
+                            if let (false, Some(RefItem::Row(rr))) = (has_outputs, r.items.get(k)) {
+                                st.witness("signal_list_without_outputs");
+                                if c.rw != rr.checked {
+                                    return fail(format!("call kind: row {k} is {} but was sent with the {} call", if rr.checked { "a checked row" } else { "a mid-clock row" }, if c.rw { "output-reading" } else { "write-only" }));
+                                }
+                            } else if c.rw != !row.outputs.is_empty() {
                                 return fail(format!("call kind: row {k} has {} outputs but was sent with the {} call", row.outputs.len(), if c.rw { "output-reading" } else { "write-only" }));
                             }
                             st.witness(if c.rw { "checked_row_output_reading_call" } else { "mid_clock_row_write_only_call" });
@@ -164,6 +177,26 @@ pub fn run(tier: Tier, seed: u64) -> i32 {
                 cases.push(Case::new(&format!("row sequences K={k} #{idx} {}", if ov { "Ov" } else { "Fw" }), prog.clone(), sigs_a.clone(), ov, ans_a.clone(), ans_a.clone(), 40));
                 na += 1;
                 if k <= 3 {
+                    // a signal list without any output: stimulus only
+                    let strip = |b: &[Stmt]| -> Vec<Stmt> {
+                        fn go(b: &[Stmt]) -> Vec<Stmt> {
+                            b.iter()
+                                .map(|s| match s {
+                                    Stmt::Row(es) => Stmt::Row(es[..es.len() - 1].to_vec()),
+                                    Stmt::Repeat(e, es) => Stmt::Repeat(e.clone(), es[..es.len() - 1].to_vec()),
+                                    Stmt::Loop(v, e, b) => Stmt::Loop(v.clone(), e.clone(), go(b)),
+                                    Stmt::While(c, b) => Stmt::While(c.clone(), go(b)),
+                                    other => other.clone(),
+                                })
+                                .collect()
+                        }
+                        go(b)
+                    };
+                    let p0 = Program { header: vec!["CLK".into(), "A".into()], body: strip(&prog.body) };
+                    let sigs_in = vec![Sig::inp("CLK", 1, 0), Sig::inp("A", 4, 3), Sig::inp("B", 2, 6)];
+                    let none = vec![MenuItem::ans(vec![])];
+                    cases.push(Case::new(&format!("signal list without outputs K={k} #{idx} {}", if ov { "Ov" } else { "Fw" }), p0, sigs_in, ov, none.clone(), none, 40));
+                    na += 1;
                     // the driver fails once, at any call, and the caller carries on
                     let mut menu = ans_a.clone();
                     menu.push(fault.clone());
@@ -237,7 +270,7 @@ pub fn run(tier: Tier, seed: u64) -> i32 {
         assumptions: vec![
             "the oracle uses only the subject's own items and the driver's log; the reference interpreter is used to predict which kind of call comes next (to build the script) and whether an error item precedes or follows its call".into(),
         ],
-        required_witnesses: vec!["constructor_call_checked", "checked_row_output_reading_call", "mid_clock_row_write_only_call", "mid_clock_row_through_default_write_input", "expression_error_item_without_call", "end_of_iteration", "next_after_end", "run_of_more_than_900_calls", "one_loaded_test_used_twice_with_different_drivers"],
+        required_witnesses: vec!["constructor_call_checked", "checked_row_output_reading_call", "mid_clock_row_write_only_call", "mid_clock_row_through_default_write_input", "expression_error_item_without_call", "end_of_iteration", "next_after_end", "run_of_more_than_900_calls", "one_loaded_test_used_twice_with_different_drivers", "signal_list_without_outputs"],
         exhaustive_note: "every reachable state up to the depth bound for every case".into(),
         e1: true,
     };
